@@ -1,19 +1,17 @@
 #!/venv/bin/python
-"""Demo of open finding C13-READ-NAMES (optimism/ReadExodusMesh.py) and of the proposed repair.
+"""Demo of finding C13-READ-NAMES (optimism/ReadExodusMesh.py), FIXED by /repo ce166ed.
 
     PYTHONPATH=/repo JAX_PLATFORMS=cpu JAX_ENABLE_X64=1 /venv/bin/python /verif/tools/vlib/c13_demo_read_names.py
 
 A well-formed TRI3 Exodus file with 4 nodes and two one-element blocks: the first block is NAMED 'block_2', the second is unnamed, so
-the reader auto-names it 'block_2' as well.  `blocks[blockNames[i]] = elemRange` then overwrites the first entry: the mesh has two
-elements but one block, element 0 is in no block, and block_maps (slices taken while iterating over the blocks dict) gives the surviving
-block -- which holds element 1, global number 20 -- the global number of element 0.  The same happens to node sets and side sets through
-`dict(zip(names, ...))`.  Coq: C13_read_exodus_name_clash_refuted, C13_read_block_maps_name_clash_refuted (coq/props/P_C13.v).
+the reader auto-names it 'block_2' as well.  Before ce166ed `blocks[blockNames[i]] = elemRange` overwrote the first entry: two elements
+but one block, element 0 in no block, and block_maps (slices taken while iterating over the blocks dict) gave the surviving block --
+element 1, global number 20 -- the global number of element 0 (Coq: C13_read_exodus_name_clash_refuted,
+C13_read_block_maps_name_clash_refuted).  Since ce166ed _check_names_are_distinct raises ValueError; by C13_read_exodus_checked_spec /
+C13_read_exodus_rejects_iff_record_lost the reader rejects exactly the files on which a record would be lost and by
+C13_read_exodus_mesh_whole_file nothing is lost on the files it accepts.  Exit code 1 = the defect is back.
 
-With tools/vlib/c13_read_names.patch applied (in memory here; /repo is not touched) the reader raises ValueError instead; by
-C13_read_exodus_checked_spec / C13_read_exodus_rejects_iff_record_lost it rejects exactly the files on which a record would be lost and
-by C13_read_exodus_checked_no_loss nothing is lost on the files it accepts.
-
-netCDF4 is not installed on this machine: the reader code runs unchanged on the in-memory stand-in for netCDF4.Dataset of the C13 harness.
+The reader code runs unchanged on the in-memory stand-in for netCDF4.Dataset of the C13 harness.
 """
 import os
 import sys
@@ -24,29 +22,20 @@ from props import c13  # noqa: E402
 
 def main():
     import numpy as np
-    w = c13.exodus_name_clash_witness()
+    w = c13.exodus_name_clash_witness()          # installs the stand-in for netCDF4.Dataset before the reader module is imported
+    from optimism import ReadExodusMesh
     print('file: TRI3, 4 nodes, connect1=[[1,2,3]] connect2=[[1,3,4]], eb_names=[\'block_2\', \'\'], elem_num_map=[10, 20]')
-    print('present reader  :', w)
-    lost = 'rejected' not in w and w['elements'] == 2 and sorted(x for v in w['blocks'].values() for x in v) != [0, 1]
-    print('   -> element 0 is in no block, block_maps misaligned' if lost else '   -> nothing lost (finding no longer reproduces)')
-    pmod, err = c13.patched_reader_module()
-    if pmod is None:
-        print('the proposed patch does not apply to the current source:', err)
-        return 0 if not lost else 1
-    try:
-        m = pmod.read_exodus_mesh('c13_name_clash')
-        print('patched reader  : accepted', {k: np.asarray(v).tolist() for k, v in m.blocks.items()})
-        ok = False
-    except ValueError as ex:
-        print('patched reader  : ValueError:', ex)
-        ok = True
+    print('reader :', w)
+    lost = 'rejected' not in w and (len(w['blocks']) < 2 or sorted(x for v in w['blocks'].values() for x in v) != [0, 1])
+    print('   -> DEFECT: element 0 is in no block, block_maps misaligned' if lost else '   -> rejected / nothing lost, as required')
     # a file with distinct names is read as before
-    c13._Dataset.store['c13_demo_ok'] = (c13._Dataset.store['c13_name_clash'][0],
-                                         dict(c13._Dataset.store['c13_name_clash'][1], eb_names=c13._Var(c13.names_record(['left', '']))))
-    m = pmod.read_exodus_mesh('c13_demo_ok')
-    print('patched reader, eb_names=[\'left\', \'\'] :', {k: np.asarray(v).tolist() for k, v in m.blocks.items()},
+    dims, var = c13._Dataset.store['c13_name_clash']
+    c13._Dataset.store['c13_demo_ok'] = (dims, dict(var, eb_names=c13._Var(c13.names_record(['left', '']))))
+    m = ReadExodusMesh.read_exodus_mesh('c13_demo_ok')
+    print('reader, eb_names=[\'left\', \'\'] :', {k: np.asarray(v).tolist() for k, v in m.blocks.items()},
           {k: np.asarray(v).tolist() for k, v in m.block_maps.items()})
-    return 1 if (lost or not ok) else 0
+    print('structure check (names_check_structure):', c13.names_check_structure() or 'ok')
+    return 1 if lost else 0
 
 
 if __name__ == '__main__':
